@@ -515,7 +515,7 @@ def run(prog):
         if len(fs_) != 1:
             out.append(inst("EM", k, UNDECIDED, None, None, "entry point not found"))
             continue
-        fn = fs_[0]
+        fn = prog.default_args_worker(fs_[0])
         asm = assumption(prog, fn, kind)
         if not asm and kind[0] == "item":
             # the items are consumed by closures of an iterator chain over the list: evaluate each closure with its item empty
